@@ -38,7 +38,10 @@ def mk_inds(vectors):
     from geneticengine.solutions.individual import Individual
 
     rep = TableRep()
-    return [Individual((i, tuple(v)), rep) for i, v in enumerate(vectors)]
+    from vk.values import num
+
+    # ("inf" / "-inf" in the JSON case: an infinite component, the "invalid on this case" / "perfect" idiom)
+    return [Individual((i, tuple(num(x) for x in v)), rep) for i, v in enumerate(vectors)]
 
 
 # ---- tournament ---------------------------------------------------------------------------
@@ -211,8 +214,14 @@ class TournamentAllDraws(Facet):
 
 # ---- lexicase -----------------------------------------------------------------------------
 def mad(vals):
+    """Median absolute deviation as numpy computes it: a NaN (inf - inf) anywhere makes the result NaN."""
+    import math
+
     m = statistics.median(vals)
-    return statistics.median([abs(v - m) for v in vals])
+    devs = [abs(v - m) for v in vals]
+    if math.isnan(m) or any(math.isnan(d) for d in devs):
+        return math.nan
+    return statistics.median(devs)
 
 
 def survivors(cands, order, minimize, epsilon):
@@ -248,7 +257,9 @@ def run_lexicase(case, source):
     step = LexicaseSelection(epsilon=case["epsilon"])
     if case.get("seed", 0) % 2 == 1:
         # the same step object used before on another population
-        warm = mk_inds([[x + 3 for x in v] for v in reversed(case["vectors"])])
+        from vk.values import num as _num
+
+        warm = mk_inds([[_num(x) + 3 for x in v] for v in reversed(case["vectors"])])
         list(step.apply(problem, SequentialEvaluator(), TableRep(), RecordingSource(0), list(warm), 1, 0))
     if case.get("seed", 0) % 4 == 1:
         # twins: further, distinct Individual objects whose genotypes equal those of the first ones
@@ -259,7 +270,7 @@ def run_lexicase(case, source):
     if case.get("seed", 0) % 3 == 0:
         # the same step object was applied before to the very same list object, under another
         # problem (other scores for the same individuals) that is still alive
-        other = MultiObjectiveProblem([not m for m in case["minimize"]], lambda p: [7 - x for x in reversed(p[1])])
+        other = MultiObjectiveProblem([not m for m in case["minimize"]], lambda p: [7 - x for x in reversed(p[1])])  # (p[1] is decoded: numbers)
         list(step.apply(other, SequentialEvaluator(), TableRep(), RecordingSource(1), pop, 1, 0))
         run_lexicase.keepalive = other
     out = list(step.apply(problem, SequentialEvaluator(), TableRep(), source, pop, case["target"], 1))
@@ -297,7 +308,7 @@ def lexicase_cases(max_pop, max_cases, max_target, vals):
         lambda n: st.integers(1, max_cases).flatmap(
             lambda k: st.builds(
                 lambda vectors, minimize, eps, tgt, seed: {"vectors": vectors, "minimize": minimize, "epsilon": eps, "target": 1 + tgt % (min(n, max_target) + (2 if tgt % 5 == 0 else 0)), "seed": seed},
-                st.lists(st.lists(vals, min_size=k, max_size=k), min_size=n, max_size=n),
+                st.lists(st.lists(st.one_of(vals, vals, vals, vals, vals, vals, vals, st.sampled_from(["inf", "-inf"])), min_size=k, max_size=k), min_size=n, max_size=n),
                 st.lists(st.booleans(), min_size=k, max_size=k),
                 st.booleans(),
                 st.integers(0, 20),
@@ -369,9 +380,13 @@ class LexicaseAllDraws(Facet):
             rec.stats.exhaustive = True
         rec.stats.exhaustive = rec.stats.exhaustive and complete
         if complete:
-            avail = [(i, tuple(v)) for i, v in enumerate(case["vectors"])]
-            union = survivor_union(avail, len(case["minimize"]), case["minimize"], case["epsilon"])
+            # the population as it was handed to the step (it may hold twins of the first individuals)
+            pop0 = next((res[0] for _, res, exc in paths if exc is None and res), [])
+            avail = [(x.genotype[0], tuple(x.genotype[1])) for x in pop0]
+            union = survivor_union(avail, len(case["minimize"]), case["minimize"], case["epsilon"]) if avail else set()
             missing = union - first_winners
+            if any(exc is not None for _, _, exc in paths):
+                missing = set()  # (some draws made the step raise: the completeness clause is about selections that succeed)
             if missing:
                 rec.fail(
                     "C17/lexicase/filter-vacuous-or-biased/first-winner-never-some-survivor",
